@@ -8,6 +8,7 @@
   that ended the run, if any.
 -/
 import Proofs.Lemmas.CoreTrigger2
+import Proofs.Lemmas.CoreActuator6
 namespace Demeter
 open Core
 
@@ -324,6 +325,22 @@ theorem C18_on_every_grid (start Δ : Int) (hΔ : 0 < Δ) (n : Nat) (l : Core.In
       simp [grid, List.range_succ_eq_map]
     rw [hh] at h
     exact h
+
+/-! ### through the bar loop -/
+
+/-- **C18 through the bar loop** (`Demeter.Core.run`, the model of `Actuator.run` with markets, hooks, operations, refreshes,
+    updates and notifications around the triggers): in every run that ends normally, whatever the strategy's hooks and the
+    markets do, the calls of the action of trigger `i` are exactly one per bar of the (resampled) bar index that its
+    specification denotes, with the keyword arguments supplied. -/
+theorem C18_through_the_bar_loop (cfg : Cfg) (sc : Script) (l : Core.Installed)
+    (hmk : ∀ p ∈ l, p.2.1.make = .ok p.2.2) (hok : ∀ p ∈ l, SpecOK p.2.1)
+    (hidx : (barIndex cfg).Pairwise (· < ·)) (h : (run cfg l.trigs sc).err = none) :
+    ∀ (i : Nat) (hi : i < l.length),
+      firesOf i ((run cfg l.trigs sc).trace.filterMap fireOfEv) =
+        ((barIndex cfg).filter (denotes ((barIndex cfg).headD 0) l[i].2.1)).map (fun t => ⟨t, i, l[i].1⟩) := by
+  intro i hi
+  rw [(core_run_trig cfg l.trigs sc h).1]
+  exact (C18_fires_eq_denoted (barIndex cfg) hidx l hmk hok).2 i hi
 
 /-! ### what still raises: parameter lists the code cannot evaluate (reported, not repaired) -/
 
